@@ -114,6 +114,89 @@ def unjson(x):
     return x
 
 
+_WORK = None
+
+
+def _prove_task(task):
+    """worker: VC generation + discharge for one (contract, alternative); returns plain data"""
+    ci, alt = task
+    contracts, root, options = _WORK
+    c = contracts[ci]
+    t0 = time.time()
+    try:
+        rep = verify_contract(REGISTRY, Repo(root), c, options, only_alt=alt)
+        if rep.status == "ok":
+            discharge(rep.obligations, procs=1)
+        obs = []
+        for ob in rep.obligations:
+            obs.append({
+                "label": ob.label, "kind": ob.kind, "line": ob.line, "trace": ob.trace[-6:], "meta": {k: (v if isinstance(v, (str, int, float, bool, type(None))) else str(v)) for k, v in (ob.meta or {}).items()},
+                "result": ob.result or {"status": "undecided", "backend": "-", "seconds": 0.0, "model": None, "reason": "not attempted"},
+                "smt2_bytes": len(ob.smt2()),
+            })
+        return {
+            "status": rep.status, "reason": rep.reason, "sha": rep.sha, "obligations": obs, "trivial": rep.trivial, "paths": rep.paths,
+            "vacuity": rep.vacuity, "notes": rep.notes, "callees": rep.callees, "gen_seconds": rep.gen_seconds, "seconds": time.time() - t0,
+            "trusted": sorted(_np4.TRUSTED_USED), "lemmas": sorted(_spec.LEMMAS_USED),
+        }
+    except Exception as e:  # noqa: BLE001
+        return {"status": "error", "reason": f"{type(e).__name__}: {e}\n{traceback.format_exc(limit=6)}", "sha": None, "obligations": [], "trivial": 0, "paths": 0,
+                "vacuity": {"requires_sat": None, "dead_paths": []}, "notes": [], "callees": [], "gen_seconds": 0, "seconds": time.time() - t0}
+
+
+class LightOb:
+    """an obligation as reported by a worker (no z3 terms)"""
+
+    def __init__(self, d, alt):
+        self.label = d["label"]
+        self.kind = d["kind"]
+        self.line = d["line"]
+        self.trace = d["trace"]
+        self.meta = d["meta"]
+        self.result = d["result"]
+        self.alt = alt
+        self._bytes = d["smt2_bytes"]
+
+    def smt2(self):
+        return " " * self._bytes
+
+
+class LightReport:
+    def __init__(self, contract):
+        self.contract = contract
+        self.label = contract.qualname
+        self.file = contract.file
+        self.status = "ok"
+        self.reason = None
+        self.sha = None
+        self.obligations = []
+        self.trivial = 0
+        self.paths = 0
+        self.alternatives = 0
+        self.vacuity = {"requires_sat": None, "dead_paths": [], "canaries": []}
+        self.notes = []
+        self.callees = []
+        self.gen_seconds = 0.0
+
+    def absorb(self, alt, r):
+        self.alternatives += 1
+        if r["status"] != "ok" and self.status == "ok":
+            self.status, self.reason = r["status"], r["reason"]
+        self.sha = r["sha"] or self.sha
+        self.obligations.extend(LightOb(d, alt) for d in r["obligations"])
+        self.trivial += r["trivial"]
+        self.paths += r["paths"]
+        v = r["vacuity"]
+        rs = v.get("requires_sat")
+        if self.vacuity["requires_sat"] in (None, "sat"):
+            self.vacuity["requires_sat"] = rs
+        self.vacuity["dead_paths"].extend(v.get("dead_paths", []))
+        self.vacuity["canaries"].extend(v.get("canaries", []))
+        self.notes.extend(r["notes"])
+        self.callees = sorted(set(map(tuple, self.callees)) | set(map(tuple, r["callees"])))
+        self.gen_seconds += r["gen_seconds"]
+
+
 class PropertyRun:
     def __init__(self, pid, tier, seed):
         self.pid = pid
@@ -133,23 +216,67 @@ class PropertyRun:
 
     # ------------------------------------------------------------------ proofs
     def prove(self, contract_keys, options=None):
+        """generate and discharge the obligations of the given contracts, one worker task per (function, alternative)"""
+        import multiprocessing as mp
+
+        from pyvc.driver import n_alternatives
+
         contracts = []
         for key in contract_keys:
             c = REGISTRY.contracts.get(key)
             if c is None:
                 self.crashes.append(f"no contract registered for {key}")
                 continue
-            contracts.append(c)
-        all_obs = []
-        for c in contracts:
-            if c.assumed:
-                continue
-            rep = verify_contract(REGISTRY, self.repo, c, options)
+            if not c.assumed:
+                contracts.append(c)
+        tasks = []
+        for ci, c in enumerate(contracts):
+            for k in range(n_alternatives(c)):
+                tasks.append((ci, k))
+        self._contracts = contracts
+        self._options = options
+        global _WORK
+        _WORK = (contracts, self.repo.root, options)
+        procs = min(int(os.environ.get("VERIF_PROCS", "16")), max(1, len(tasks)))
+        # biggest functions first
+        weight = {ci: len(c.loops) * 10 + n_alternatives(c) for ci, c in enumerate(contracts)}
+        tasks.sort(key=lambda t: -weight[t[0]])
+        if procs == 1:
+            results = [_prove_task(t) for t in tasks]
+        else:
+            with mp.get_context("fork").Pool(procs) as pool:
+                results = pool.map(_prove_task, tasks, chunksize=1)
+        by_c = {}
+        for (ci, k), r in zip(tasks, results):
+            by_c.setdefault(ci, []).append((k, r))
+        for ci, c in enumerate(contracts):
+            rep = LightReport(c)
+            for k, r in sorted(by_c.get(ci, [])):
+                rep.absorb(k, r)
             self.reports.append(rep)
-            if rep.status == "ok":
-                all_obs.extend(rep.obligations)
-        discharge(all_obs)
+        _np4.TRUSTED_USED.update(x for _, r in zip(tasks, results) for x in r.get("trusted", []))
+        _spec.LEMMAS_USED.update(x for _, r in zip(tasks, results) for x in r.get("lemmas", []))
         return self.reports
+
+    def materialize(self, rep, ob):
+        """LightOb -> (full report, real Obligation with z3 terms) by regenerating its alternative in this process"""
+        if not isinstance(ob, LightOb):
+            return rep, ob
+        cache = self.__dict__.setdefault("_regen", {})
+        key = (rep.contract.key(), ob.alt)
+        if key not in cache:
+            cache[key] = self.regenerate(rep, ob.alt)
+        full = cache[key]
+        for real in full.obligations:
+            if real.label == ob.label:
+                real.result = dict(ob.result)
+                return full, real
+        return full, None
+
+    def regenerate(self, rep, alt):
+        """re-run VC generation for one alternative in this process (needed for replay: z3 terms do not cross processes)"""
+        full = verify_contract(REGISTRY, self.repo, rep.contract, self._options, only_alt=alt)
+        return full
 
     # ------------------------------------------------------------------ verdicts
     def conclude(self, prop_module):
@@ -173,41 +300,19 @@ class PropertyRun:
                 self.undecided.append(f"{rep.label}: satisfiability of the precondition: {rep.vacuity.get('requires_sat')}")
             failed_keys = set()
             searched = {}
-            for ob in rep.obligations:
-                st = ob.result["status"]
+            for lob in rep.obligations:
+                st = lob.result["status"]
                 if st not in ("undecided", "failed"):
                     continue
-                k = ob_key(ob)
+                k = ob_key(lob)
                 if k in failed_keys:
                     continue
                 failed_keys.add(k)
-                if st == "failed":
-                    self._report_failed_obligation(rep, ob, k, findings, RP, searched)
+                full, ob = self.materialize(rep, lob)
+                if ob is None:
+                    self.crashes.append(f"{lob.label}: obligation could not be regenerated in the main process")
                     continue
-                # the solver gave up (unknown / timeout).
-                in_baseline = k in self.baseline.get(self.pid, {})
-                if in_baseline:
-                    # discharged on the unchanged tree: retry once, alone, with a large budget, before saying anything
-                    from pyvc.discharge import discharge as _dis
-
-                    _dis([ob], procs=1, timeout_ms=int(os.environ.get("PYVC_RETRY_TIMEOUT_MS", "120000")))
-                    if ob.result["status"] == "discharged":
-                        self.notes.append(f"{ob.label}: discharged on retry with the large budget")
-                        continue
-                    if ob.result["status"] == "failed":
-                        self._report_failed_obligation(rep, ob, k, findings, RP, searched)
-                        continue
-                outcome = RP.replay_obligation(self, rep, ob, searched, undecided=not in_baseline)
-                kf = [x for x in findings if x["key"] == k]
-                if kf and (outcome["found_input"] or in_baseline):
-                    self.known.append(f"KNOWN-FINDING: property={self.pid} {k} {kf[0]['text']}")
-                elif outcome["found_input"]:
-                    self.violations.append({"key": k, "text": f"obligation {ob.label} is not provable and the real function breaks its contract on a concrete input", "replay": outcome["path"], "found_input": True})
-                elif in_baseline:
-                    # an obligation that was discharged on the unchanged tree can no longer be discharged
-                    self.violations.append({"key": k, "text": f"obligation {ob.label} was discharged on the unchanged tree and cannot be discharged now ({ob.result['reason'][:160]})", "replay": outcome["path"], "found_input": False})
-                else:
-                    self.undecided.append(f"{ob.label}: {ob.result['reason']}")
+                self._judge(full, ob, k, st, findings, RP, searched)
         # bounded stand-ins
         for b in self.bounded:
             for e in b.errors:
@@ -223,6 +328,36 @@ class PropertyRun:
                     continue
                 path = RP.write_replay(self, kind="bounded", key=f["key"], what=f["what"], check=b.name, input=f["input"], observed=f["observed"])
                 self.violations.append({"key": f["key"], "text": f["what"], "replay": path, "found_input": True})
+
+    def _judge(self, rep, ob, k, st, findings, RP, searched):
+        """verdict for one obligation that was not discharged (rep/ob carry z3 terms)"""
+        if st == "failed":
+            self._report_failed_obligation(rep, ob, k, findings, RP, searched)
+            return
+        # the solver gave up (unknown / timeout): never a violation by itself
+        in_baseline = k in self.baseline.get(self.pid, {})
+        if in_baseline:
+            # discharged on the unchanged tree: retry once, alone, with a large budget, before saying anything
+            from pyvc.discharge import discharge as _dis
+
+            _dis([ob], procs=1, timeout_ms=int(os.environ.get("PYVC_RETRY_TIMEOUT_MS", "120000")))
+            if ob.result["status"] == "discharged":
+                self.notes.append(f"{ob.label}: discharged on retry with the large budget")
+                return
+            if ob.result["status"] == "failed":
+                self._report_failed_obligation(rep, ob, k, findings, RP, searched)
+                return
+        outcome = RP.replay_obligation(self, rep, ob, searched, undecided=not in_baseline)
+        kf = [x for x in findings if x["key"] == k]
+        if kf and (outcome["found_input"] or in_baseline):
+            self.known.append(f"KNOWN-FINDING: property={self.pid} {k} {kf[0]['text']}")
+        elif outcome["found_input"]:
+            self.violations.append({"key": k, "text": f"obligation {ob.label} is not provable and the real function breaks its contract on a concrete input", "replay": outcome["path"], "found_input": True})
+        elif in_baseline:
+            # an obligation that was discharged on the unchanged tree can no longer be discharged
+            self.violations.append({"key": k, "text": f"obligation {ob.label} was discharged on the unchanged tree and cannot be discharged now ({ob.result['reason'][:160]})", "replay": outcome["path"], "found_input": False})
+        else:
+            self.undecided.append(f"{ob.label}: {ob.result['reason']}")
 
     def _report_failed_obligation(self, rep, ob, key, findings, RP, searched=None):
         kf = [x for x in findings if x["key"] == key]
